@@ -73,8 +73,16 @@ func genC20(t *rapid.T) c20Case {
 		a := rapid.IntRange(3, 6).Draw(t, "hidden-next")
 		c.Regions = []refcrypt.Region{{Start: 0, End: 1}, {Start: uint32(a), End: uint32(a + rapid.IntRange(1, 3).Draw(t, "hidden-len"))}}
 	}
-	if c.Tool == "decrypt-3k3y" || c.Mark == "enc" || c.Mark == "dec" {
-		// the watermark area (sectors 1..2) must lie in the first plain region
+	areaEncrypted := false
+	if c.Tool == "decrypt-3k3y" && rapid.IntRange(0, 2).Draw(t, "area-encrypted") == 0 {
+		// the first plain region ends before or inside the watermark/key area (sectors 1..2): the raw mark and key sit
+		// inside encrypted sectors; the output is the decrypted image all the same, the area itself a don't-care
+		areaEncrypted = true
+		a := rapid.IntRange(3, 6).Draw(t, "area-next")
+		c.Regions = []refcrypt.Region{{Start: 0, End: uint32(rapid.IntRange(1, 2).Draw(t, "area-first-end"))}, {Start: uint32(a), End: uint32(a + rapid.IntRange(1, 3).Draw(t, "area-len"))}}
+	}
+	if !areaEncrypted && (c.Tool == "decrypt-3k3y" || c.Mark == "enc" || c.Mark == "dec") {
+		// the watermark area (sectors 1..2) lies in the first plain region
 		for c.Regions[0].End < 3 {
 			for i := range c.Regions {
 				if i > 0 && c.Regions[i].Start < 0xFFFFFFFE {
@@ -209,6 +217,9 @@ func runC20(c c20Case, st *hx.Stats) error {
 		}
 		if c.Mark != "" {
 			st.Label("redump image carrying a 3k3y watermark: " + c.Mark)
+		}
+		if c.Tool == "decrypt-3k3y" && len(c.Regions) > 0 && c.Regions[0].End < 3 {
+			st.Label("3k3y image whose watermark/key area lies in encrypted sectors")
 		}
 		if c.Tool == "decrypt-3k3y" {
 			args = []string{"decrypt", "3k3y", in}
